@@ -845,7 +845,15 @@ func (s *shardController) SwapNode(from model.Server, to model.Server) error {
 
 func (s *shardController) swapNode(from model.Server, to model.Server, res chan error) {
 	s.shardMetadataMutex.Lock()
-	s.shardMetadata.RemovedNodes = append(s.shardMetadata.RemovedNodes, from)
+	// The list may still hold the nodes of earlier swaps whose election has failed. A node that
+	// joins the ensemble again must leave it, or its replica would be deleted after the election
+	removedNodes := make([]model.Server, 0, len(s.shardMetadata.RemovedNodes)+1)
+	for _, removed := range s.shardMetadata.RemovedNodes {
+		if removed.GetIdentifier() != to.GetIdentifier() && removed.GetIdentifier() != from.GetIdentifier() {
+			removedNodes = append(removedNodes, removed)
+		}
+	}
+	s.shardMetadata.RemovedNodes = append(removedNodes, from)
 	s.shardMetadata.Ensemble = replaceInList(s.shardMetadata.Ensemble, from, to)
 	s.shardMetadataMutex.Unlock()
 
